@@ -110,12 +110,53 @@ func (p *c18Plan) amount() string {
 	}
 }
 
-func (p *c18Plan) paramsStep() c18Step {
-	st := c18Step{Op: "params", Enabled: !p.r.Chance(1, 8), Allowed: []int{}}
+// corners of the parameter space (all valid): the switch, share 0 / 1 / one raw unit, empty vs explicit vs repeated denoms
+var c18Corners = []c18Step{
+	{Enabled: false, Share: "0"}, // everything off
+	{Enabled: false, Share: "0", Allowed: []int{2}},
+	{Enabled: false, Share: "500000000000000000"},
+	{Enabled: false, Share: "1000000000000000000", Allowed: []int{0, 1, 2}},
+	{Enabled: false, Share: "1"},
+	{Enabled: true, Share: "0"},
+	{Enabled: true, Share: "0", Allowed: []int{2}},
+	{Enabled: true, Share: "1000000000000000000"},
+	{Enabled: true, Share: "1000000000000000000", Allowed: []int{2, 2}},
+	{Enabled: true, Share: "1"},
+	{Enabled: true, Share: "500000000000000000", Allowed: []int{0, 1, 2}},
+}
+
+// paramsStep: a parameter change by MsgUpdateParams (3/4) or by genesis (1/4).  mode 0: any value; 1: enabled unless a
+// rare exception (start of a history: registrations need it); 2: disabled (switched off in the middle of a history)
+func (p *c18Plan) paramsStep(mode int) c18Step {
+	st := c18Step{Op: "params", Enabled: !p.r.Chance(1, 4), Allowed: []int{}}
+	if p.r.Chance(1, 4) {
+		st.Op = "genesis"
+	}
+	switch mode {
+	case 1:
+		st.Enabled = !p.r.Chance(1, 12)
+	case 2:
+		st.Enabled = false
+	}
 	if p.r.Chance(1, 12) {
 		// refused by Params.Validate: nothing changes
-		st.Share = []string{"1000000000000000001", "-1", "2000000000000000000"}[p.r.Intn(3)]
+		st.Share = []string{"1000000000000000001", "-1", "2000000000000000000", "nil"}[p.r.Intn(4)]
 		return st
+	}
+	if p.r.Chance(1, 3) {
+		// a corner; "everything off" as often as all the others together
+		for try := 0; try < 20; try++ {
+			c := c18Corners[p.r.Intn(len(c18Corners))]
+			if p.r.Chance(1, 2) {
+				c = c18Corners[0]
+			}
+			if (mode == 1 && !c.Enabled) || (mode == 2 && c.Enabled) {
+				continue
+			}
+			st.Enabled, st.Share = c.Enabled, c.Share
+			st.Allowed = append([]int{}, c.Allowed...)
+			return st
+		}
 	}
 	if p.r.Chance(3, 4) {
 		st.Share = c18Shares[p.r.Intn(len(c18Shares))]
@@ -137,6 +178,52 @@ func (p *c18Plan) paramsStep() c18Step {
 		st.Allowed = []int{2, 0, 1}
 	}
 	return st
+}
+
+func (p *c18Plan) paidFee() [][2]string {
+	for {
+		if f := p.fee(); len(f) > 0 {
+			return f
+		}
+	}
+}
+
+// switchOff: in the middle of a history (after registrations, between payouts) fee sharing is switched off — by
+// MsgUpdateParams or by genesis, at any disabled value incl. the all-zero corner — then a registered contract is executed
+// with a non-empty fee, a registry message is tried, and (mostly) fee sharing is switched on again and the contract
+// executed once more.
+func (p *c18Plan) switchOff() []c18Step {
+	target := p.anyContract()
+	for cid := idContract0; cid < idContract0+p.nC(); cid++ {
+		if p.registered[cid] && (p.cs.Contracts[cid-idContract0].Kind == "hello" || p.r.Chance(1, 4)) {
+			target = cid
+			if p.r.Chance(1, 2) {
+				break
+			}
+		}
+	}
+	signer := p.anySigner()
+	if p.cs.Contracts[target-idContract0].Kind == "reflect" && isSigner(p.cs.Contracts[target-idContract0].Creator) {
+		signer = p.cs.Contracts[target-idContract0].Creator
+	}
+	execs := func() c18Step {
+		msgs := []c18Msg{p.execMsg(target, signer)}
+		for p.r.Chance(1, 3) && len(msgs) < 4 {
+			msgs = append(msgs, p.execMsg(p.anyContract(), signer))
+		}
+		return c18Step{Op: "tx", Signer: signer, Fee: p.paidFee(), Msgs: msgs}
+	}
+	out := []c18Step{p.paramsStep(2), execs()}
+	if p.r.Chance(1, 2) {
+		out = append(out, p.manageTx())
+	}
+	if p.r.Chance(1, 4) {
+		out = append(out, c18Step{Op: "block"}, execs())
+	}
+	if p.r.Chance(3, 4) {
+		out = append(out, p.paramsStep(1), execs())
+	}
+	return out
 }
 
 // execMsg builds a top-level execute on contract id c by signer.
@@ -164,6 +251,12 @@ func (p *c18Plan) regTx(ci int, valid bool) c18Step {
 		}
 		if p.factory(ci, signer) {
 			w = c
+		}
+	} else if p.r.Chance(1, 4) {
+		// somebody without authority trying the factory route: the contract itself as withdrawer
+		w = c
+		if a := p.authority(ci); signer == a {
+			signer = idSigner0 + (signer-idSigner0+1)%nSigners
 		}
 	}
 	p.registered[c] = true
@@ -343,7 +436,11 @@ func genC18Case(r *Rng) c18Case {
 		p.admin = append(p.admin, ct.Admin)
 	}
 	malformed := r.Chance(1, 5)
-	p.cs.Steps = append(p.cs.Steps, p.paramsStep())
+	if malformed {
+		p.cs.Steps = append(p.cs.Steps, p.paramsStep(0))
+	} else {
+		p.cs.Steps = append(p.cs.Steps, p.paramsStep(1))
+	}
 	if !malformed {
 		// registrations by the proper authorities first
 		k := r.Range(1, p.nC())
@@ -355,9 +452,9 @@ func genC18Case(r *Rng) c18Case {
 	for i := 0; i < m; i++ {
 		var w []int
 		if malformed {
-			w = []int{4, 4, 2, 1, 1, 2}
+			w = []int{4, 4, 2, 1, 2, 2, 1}
 		} else {
-			w = []int{10, 3, 2, 1, 1, 1}
+			w = []int{10, 3, 2, 1, 2, 1, 3}
 		}
 		switch r.Pick(w...) {
 		case 0:
@@ -373,9 +470,11 @@ func genC18Case(r *Rng) c18Case {
 		case 3:
 			p.cs.Steps = append(p.cs.Steps, c18Step{Op: "block"})
 		case 4:
-			p.cs.Steps = append(p.cs.Steps, p.paramsStep(), p.execTx())
+			p.cs.Steps = append(p.cs.Steps, p.paramsStep(0), p.execTx())
 		case 5:
 			p.cs.Steps = append(p.cs.Steps, p.regTx(r.Intn(p.nC()), !malformed && r.Chance(1, 2)))
+		case 6:
+			p.cs.Steps = append(p.cs.Steps, p.switchOff()...)
 		}
 	}
 	return norm(p.cs)
@@ -385,7 +484,7 @@ func genC18Case(r *Rng) c18Case {
 func norm(cs c18Case) c18Case {
 	for i := range cs.Steps {
 		st := &cs.Steps[i]
-		if st.Op == "params" && st.Share == "" {
+		if (st.Op == "params" || st.Op == "genesis") && st.Share == "" {
 			st.Share = "0"
 		}
 	}
@@ -409,6 +508,33 @@ func c18Openers() []c18Case {
 	reg := func(c, w int) c18Msg { return c18Msg{K: "reg", C: c, W: w} }
 	two := []c18Contract{{Kind: "hello", Creator: 3, Admin: -1}, {Kind: "hello", Creator: 3, Admin: 4}}
 	return []c18Case{
+		// the module parameters inside the history: "everything off" (disabled, share 0, no denom list — a valid
+		// setting) by MsgUpdateParams and by genesis after registrations: nothing may be paid, the registry is frozen;
+		// enabled with share 0; disabled with an explicit denom list; refused values leave the last setting in force
+		norm(c18Case{Contracts: two, Steps: []c18Step{
+			{Op: "params", Enabled: true, Share: "500000000000000000"},
+			tx(3, f("2", "1000"), reg(8, 6)), tx(4, f("2", "1000"), reg(9, 7)),
+			tx(5, f("2", "1000"), ex(8)),
+			{Op: "params", Enabled: false, Share: "0"},
+			tx(5, f("2", "1000"), ex(8)),
+			tx(4, f("2", "10"), c18Msg{K: "upd", C: 9, W: 6}),
+			tx(3, f("2", "10"), c18Msg{K: "cancel", C: 8}),
+			{Op: "genesis", Enabled: true, Share: "1000000000000000000", Allowed: []int{2}},
+			tx(5, f("0", "7", "2", "1000"), ex(8), ex(9)),
+			{Op: "genesis", Enabled: false, Share: "0"},
+			tx(5, f("2", "1000"), ex(8), ex(9)),
+			{Op: "block"},
+			tx(5, f("0", "3", "2", "1000"), ex(9)),
+			{Op: "genesis", Enabled: true, Share: "0"},
+			tx(5, f("2", "1000"), ex(8)),
+			{Op: "params", Enabled: false, Share: "0", Allowed: []int{2}},
+			tx(5, f("2", "1000"), ex(8)),
+			{Op: "genesis", Enabled: true, Share: "nil"},
+			{Op: "params", Enabled: true, Share: "2000000000000000000"},
+			tx(5, f("2", "1000"), ex(8)),
+			{Op: "params", Enabled: true, Share: "1"},
+			tx(5, f("2", "1000000000000000000"), ex(8)),
+		}}),
 		// AllowedDenoms naming a denom twice (accepted by Params.Validate): the fee coin must count once
 		norm(c18Case{Contracts: two[:1], Steps: []c18Step{
 			{Op: "params", Enabled: true, Share: "1000000000000000000", Allowed: []int{2, 2}},
